@@ -85,9 +85,10 @@ def tokenize(text):
 
 
 class Parser:
-    def __init__(self, toks, opaque, calls, fields):
+    def __init__(self, toks, opaque, calls, fields, rename=None):
         self.t, self.i = toks, 0
         self.opaque, self.calls, self.fields = opaque, calls, fields
+        self.rename = rename or {}   # Rust parameter name -> Lean parameter name (positional: a renamed parameter is harmless)
         self.used = []           # parameters in order of first use
 
     def peek(self, k=0):
@@ -191,7 +192,7 @@ class Parser:
                 if cur in self.opaque or any(k.startswith(cur + ".") for k in self.opaque):
                     cur = "@" + cur      # an opaque receiver, resolved below
                 elif re.match(r"[a-z_][a-z0-9_]*$", cur):
-                    cur = self.use(cur, "Nat")   # a plain numeric parameter of the function
+                    cur = self.use(self.rename.get(cur, cur), "Nat")   # a plain numeric parameter of the function
                 else:
                     raise Untranslatable("identifier %r" % cur)
         else:
@@ -268,9 +269,19 @@ class Parser:
 
 def translate(src, impl_pat, fn_name, lean_name, ret, opaque=None, calls=None, fields=None, project=None, params=None):
     """-> Lean definition text. `project`: keep only that component of a final tuple. `params`: fixed parameter order."""
-    body, _sig = method_body(src, impl_pat, fn_name)
+    body, sig = method_body(src, impl_pat, fn_name)
     toks = tokenize(body)
-    p = Parser(toks, opaque or {}, calls or {}, fields or {})
+    # numeric parameters are matched by POSITION: the names in the Rust signature (without the receiver) are mapped onto the
+    # declared Lean parameters that are not receiver fields, in order
+    rust_params = [x.split(":")[0].strip() for x in sig.split(",") if x.strip() and not re.match(r"\s*&?\s*(mut\s+)?self\s*$", x)]
+    rename = {}
+    if params is not None:
+        field_names = set((fields or {}).values())
+        lean_params = [n for n, t in params if n not in field_names and t == "Nat" and n not in [v[0] for v in (opaque or {}).values() if isinstance(v, tuple)]]
+        numeric_rust = [r0 for r0 in rust_params if not any(k == r0 or k.startswith(r0 + ".") for k in (opaque or {}))]
+        if len(numeric_rust) == len(lean_params):
+            rename = dict(zip(numeric_rust, lean_params))
+    p = Parser(toks, opaque or {}, calls or {}, fields or {}, rename)
     e = p.block({})
     if p.peek() is not None:
         raise Untranslatable("trailing tokens after the body of %s: %r" % (fn_name, p.t[p.i:p.i + 5]))
